@@ -16,6 +16,7 @@ from values import *
 import api
 import render
 import explore as ex
+import kani_adapter
 from harness.common import *
 from harness import refparse as rf
 
@@ -130,6 +131,7 @@ def run(ctx):
               'step_limit': 400000}
     eng = ctx.engine('dev')
     recs, summ = ex.explore(eng, harness, params, prepare=prepare)
+    kres = kani_adapter.run_group('C05', ctx.tier)
     inconclusive = []
     by_status = {}
     for r in recs:
@@ -137,8 +139,6 @@ def run(ctx):
         if r['status'] in ('unsupported', 'inconclusive'):
             inconclusive.append('%s: %s %s' % (r['status'], r.get('detail'), r.get('where', '')))
     inconclusive = sorted(set(inconclusive))
-    if summ.get('truncated'):
-        inconclusive.append('exploration truncated')
     covers = set()
     for r in recs:
         covers.update(r.get('covers', []))
@@ -165,6 +165,16 @@ def run(ctx):
                          'expect': {'step': 0, 'kind': 'must not be ok' if f['kind'] == 'accept' else 'must not panic'},
                          'witness_text': repr(bytes.fromhex(f['witness']).decode('utf-8', 'replace')),
                          'native': {'dev': od, 'release': orl}, 'id': sid([key, f['witness']]), 'count': len(fs)})
+    if kres.get('ok'):
+        for h in kres['harnesses']:
+            if h['verdict'] == 'FAILED':
+                if not findings:
+                    inconclusive.append('kani kernel %s FAILED (%s, cex %s) but no violation was reproduced through parse_expression' % (
+                        h['name'], [c.get('desc') for c in h.get('failed_checks', [])][:2], h.get('cex')))
+            elif h['verdict'] != 'SUCCESS':
+                inconclusive.append('kani harness %s: %s' % (h['name'], h['verdict']))
+    else:
+        inconclusive.append('kani runner failed: %s' % kres.get('detail', '')[-300:])
     # sampled native validation: accepted / rejected must agree
     done = [r for r in recs if r['status'] == 'done' and r.get('outcome') in ('ok', 'err')]
     stride = max(1, len(done) // (300 if ctx.tier == 'quick' else 1500))
@@ -189,7 +199,8 @@ def run(ctx):
             'exhaustive': not summ.get('truncated') and not inconclusive,
             'bound': {'slots_max': T, 'skeletons_with_symbolic_slots': SKELETONS, 'alphabet': ALPHABET.decode(), 'accepted_paths': len(accepted), 'rejected_by_variant': errs},
             'path_status': by_status,
-            'solver': {'engine': 'z3 ' + z3.get_version_string(), 'queries_sat': summ['sat'], 'queries_unsat': summ['unsat'],
+            'kani': kani_adapter.summarize(kres) if kres.get('ok') else {'error': kres.get('detail', '')[-500:]},
+            'solver': {'engine': 'z3 ' + z3.get_version_string() + ' / CBMC via Kani', 'queries_sat': summ['sat'], 'queries_unsat': summ['unsat'],
                        'queries_unknown': summ['unknown'], 'solver_s': round(summ['solver_s'], 2)},
             'mir_steps': summ['steps'], 'workers': summ['workers'],
             'functions_encoded': summ['bodies_used'], 'library_models_used': summ['models_used'], 'covers_hit': sorted(covers),
